@@ -10,7 +10,16 @@ import NumbersModel.Gen.TrA1
 import NumbersModel.Gen.TrItems
 import NumbersModel.Gen.TrNumFmt
 import NumbersModel.Gen.TrAddr
+import NumbersModel.Gen.TrDateFmt
+import NumbersModel.Gen.TrDuration
+import NumbersModel.Gen.TrDec128
+import NumbersModel.Gen.TrMerge
+import NumbersModel.Gen.TrEdit
+import NumbersModel.Gen.TrCache
+import NumbersModel.Gen.TrTok
+import NumbersModel.Drv.Tokenizer
 import NumbersModel.Drv.Addressing
+import NumbersModel.Model.DateFmt
 
 open NumbersModel NumbersModel.Drv NumbersModel.Gen.T
 
@@ -30,6 +39,9 @@ def handleTrA1 : List String → Option String
   | ["coloff", s] => do
     let s ← parseText s
     pure (showPyM (fun (i : Int) => s!"{i}") (xl_col_to_offset s))
+  | ["colidx", s] => do
+    let s ← parseText s
+    pure (showPyM (fun (i : Int) => s!"{i}") (col_to_index s))
   | _ => none
 
 /-- `getitem <n> <name_1> … <name_n> (i <int> | s <text> | o)`: reply `ok <index of the returned item>` -/
@@ -66,6 +78,135 @@ def handleTrAddr : List String → Option String
     pure (showPyM showGrid ((iter_cols_bounds rows cols c d a b).map Addressing.colsOf))
   | _ => none
 
+/-- same request lines as `Drv/DateFmt.lean` (`fmt`, `expand`), plus the three directive helpers called directly:
+    `doy <tm_yday>`, `wom <day> <weekday of the 1st>`, `occ <day>` -/
+def handleTrDateFmt : List String → Option String
+  | ["fmt", y, mo, d, h, mi, s, us, f] => do
+    let ns ← [y, mo, d, h, mi, s, us].mapM String.toNat?
+    let f ← parseText f
+    match ns with
+    | [y, mo, d, h, mi, s, us] =>
+      pure (showPyM showText (decode_date_format (DateFmt.isAlphaIn Gen.alphaRanges)
+        (DateFmt.decodeField ⟨y, mo, d, h, mi, s, us⟩) f))
+    | _ => none
+  | ["expand", s] => do
+    let s ← parseText s
+    pure (showPyM showText (expand_quotes s))
+  | ["doy", yd] => do
+    let yd ← yd.toInt?
+    pure (showPyM (fun (i : Int) => s!"{i}") (day_of_year yd))
+  | ["wom", d, w] => do
+    let d ← d.toInt?; let w ← w.toInt?
+    pure (showPyM (fun (i : Int) => s!"{i}") (week_of_month d w))
+  | ["occ", d] => do
+    let d ← d.toInt?
+    pure (showPyM showText (days_occurred_in_month d))
+  | _ => none
+
+/-- `units <ms> <largest> <smallest>` as in `Drv/Duration.lean`; `unitfmt <unit> <value> <style> (n | s <abbrev>)` -/
+def handleTrDuration : List String → Option String
+  | ["units", ms, largest, smallest] => do
+    let ms ← ms.toInt?; let largest ← largest.toInt?; let smallest ← smallest.toInt?
+    pure (showPyM (fun (p : Int × Int) => s!"{p.1} {p.2}") (auto_units ⟨ms⟩ largest smallest))
+  | "unitfmt" :: u :: v :: st :: rest => do
+    let u ← parseText u; let v ← v.toInt?; let st ← st.toInt?
+    let ab ← match rest with
+      | ["n"] => some none
+      | ["s", a] => (parseText a).map some
+      | _ => none
+    pure (showPyM showText (unit_format u v st ab))
+  | _ => none
+
+/-- `unpack <hex bytes>`: reply `ok <sign> <signed mantissa> <exp>` (what the source hands to the final `float(...)`) -/
+def handleTrD128 : List String → Option String
+  | ["pack", s, c, e] => do
+    let s ← parseBool s; let c ← c.toNat?; let e ← e.toInt?
+    pure (showPyM showBytes (pack_decimal128 (if s then 1 else 0) (c : Int) e))
+  | ["unpack", b] => do
+    let b ← parseBytes b
+    pure (showPyM (fun (r : Int × Int × Int) => s!"{r.1} {r.2.1} {r.2.2}") (unpack_decimal128 b))
+  | _ => none
+
+/-- `pack <row> <col> <h> <w>`: reply `ok <origin> <size>`; `unpack <origin> <size>`: reply `ok r0 c0 r1 c1 nrows ncols` -/
+def handleTrMerge : List String → Option String
+  | ["pack", r, c, h, w] => do
+    let r ← r.toInt?; let c ← c.toInt?; let h ← h.toInt?; let w ← w.toInt?
+    pure (showPyM (fun (p : Int × Int) => s!"{p.1} {p.2}") (merge_pack (r, c) (h, w)))
+  | ["unpack", o, s] => do
+    let o ← o.toInt?; let s ← s.toInt?
+    pure (showPyM (fun (p : Int × Int × Int × Int × Int × Int) =>
+      s!"{p.1} {p.2.1} {p.2.2.1} {p.2.2.2.1} {p.2.2.2.2.1} {p.2.2.2.2.2}") (merge_unpack o s))
+  | _ => none
+
+/-- `addrow|addcol|delrow|delcol <table rows resp. columns> <count> <start | n>`: reply `ok <start used>` for the two adds,
+    `ok` for the two deletes -/
+def handleTrEdit : List String → Option String
+  | [op, size, n, st] => do
+    let size ← size.toInt?; let n ← n.toInt?
+    let st ← if st == "n" then some none else (st.toInt?).map some
+    match op with
+    | "addrow" => pure (showPyM (fun (i : Int) => s!"{i}") (add_row_args size n st))
+    | "addcol" => pure (showPyM (fun (i : Int) => s!"{i}") (add_column_args size n st))
+    | "delrow" => pure (showPyM (fun (_ : Unit) => "") (delete_row_args size n st))
+    | "delcol" => pure (showPyM (fun (_ : Unit) => "") (delete_column_args size n st))
+    | _ => none
+  | _ => none
+
+/-- `cache calls <n> <int>*` as in `Drv/Cache.lean`: a sum-of-squares method called through the translated wrapper on
+    consecutive n-tuples, the store threaded from call to call; reply: the results, then the number of stored entries -/
+def handleTrCache : List String → Option String
+  | "calls" :: n :: rest => do
+    let n ← n.toNat?
+    let xs ← rest.mapM String.toInt?
+    if n = 0 then none else
+    let rec groups : Nat → List Int → List (List Int)
+      | 0, _ => []
+      | _, [] => []
+      | fuel + 1, l => l.take n :: groups fuel (l.drop n)
+    let calls := groups xs.length xs
+    let f (a : List Int) : Int := (a.zipIdx.map fun p => p.1 * p.1 + (p.2 : Int)).sum
+    let r : PyM (List Int × List (Text × Int)) := calls.foldlM (fun (acc : List Int × List (Text × Int)) a => do
+      let (v, st) ← cache_inner_multi_args f (n : Int) acc.2 a
+      pure (acc.1 ++ [v], st)) ([], [])
+    pure (showPyM (fun (p : List Int × List (Text × Int)) =>
+      " ".intercalate (p.1.map toString) ++ " | " ++ toString p.2.length) r)
+  | _ => none
+
+/-- `assertempty <n> <piece>*` → `ok` / `err TokenizerError`; `savetoken <n> <piece>*` (on an empty item list) →
+    `ok <tokens as in Drv/Tokenizer> | <number of pieces left>` -/
+def handleTrTok : List String → Option String
+  | "assertempty" :: n :: rest => do
+    let n ← n.toNat?
+    let ps ← (rest.take n).mapM parseText
+    pure (showPyM (fun (_ : Unit) => "") (assert_empty_token ps))
+  | "savetoken" :: n :: rest => do
+    let n ← n.toNat?
+    let ps ← (rest.take n).mapM parseText
+    pure (showPyM (fun (r : Unit × List Tokenizer.Tok × List Text) =>
+      " ".intercalate (r.2.1.map showTok) ++ " | " ++ toString r.2.2.length) (save_token [] ps))
+  | _ => none
+
+/-- the operators of `Py/Trans.lean` themselves, so that the meaning the translator gives to `& | << >> // %` and
+    `int(a / b)` / `int(ceil(a / c))` is compared with CPython on signed operands -/
+def handlePyOps : List String → Option String
+  | [op, a, b] => do
+    let a ← a.toInt?; let b ← b.toInt?
+    let showI := fun (i : Int) => s!"{i}"
+    match op with
+    | "and" => pure ("ok " ++ showI (PyT.bitAnd a b))
+    | "or" => pure ("ok " ++ showI (PyT.bitOr a b))
+    | "shl" => pure (showPyM showI (PyT.shl a b))
+    | "shr" => pure (showPyM showI (PyT.shr a b))
+    | "floordiv" => pure (showPyM showI (PyT.floordiv a b))
+    | "mod" => pure (showPyM showI (PyT.mod a b))
+    | "truedivtrunc" => pure (showPyM showI (PyT.trueDivTrunc a b))
+    | "ceildiv" => pure (showPyM showI (PyT.ceilDivFloat a b))
+    | _ => none
+  | ["range3", a, b, c] => do
+    let a ← a.toInt?; let b ← b.toInt?; let c ← c.toInt?
+    pure (showPyM (fun (l : List Int) => " ".intercalate (l.map (fun i => s!"{i}"))) (PyT.range3 a b c))
+  | _ => none
+
 def trDispatch (line : String) : String :=
   let ws := (line.splitOn " ").filter (· ≠ "")
   let r : Option String := match ws with
@@ -73,6 +214,14 @@ def trDispatch (line : String) : String :=
     | "items" :: rest => handleTrItems rest
     | "numfmt" :: rest => handleTrNumFmt rest
     | "addr" :: rest => handleTrAddr rest
+    | "datefmt" :: rest => handleTrDateFmt rest
+    | "dur" :: rest => handleTrDuration rest
+    | "d128" :: rest => handleTrD128 rest
+    | "merge" :: rest => handleTrMerge rest
+    | "py" :: rest => handlePyOps rest
+    | "edit" :: rest => handleTrEdit rest
+    | "cache" :: rest => handleTrCache rest
+    | "tokbuf" :: rest => handleTrTok rest
     | _ => none
   match r with
   | some s => s
